@@ -175,8 +175,73 @@ func TestC16RoundTrip(t *testing.T) {
 		if !ast1.EquivalentCall(ast2) || !ast2.EquivalentCall(ast1) {
 			fail(t, "C16", "round-trip-not-equivalent", "text -> data -> text is not an equivalent call:\n%s\n---\n%s", src, src2)
 		}
-		stats.Case("C16", rich, stats.Digest("rt", defs, src), classes, func() any {
-			return map[string]any{"kind": "roundtrip", "call_text": stats.Trunc(src, 900), "splitargs": splitArgs}
+		// (c) text written by hand with several @include lines: the callable
+		// may be declared in any of them, or be reached through an include
+		// of an include; text -> data -> text must again be a compiling,
+		// equivalent call with the same arguments.
+		incKind := rapid.SampledFrom([]string{"aux-first", "aux-last", "transitive", "aux-then-transitive", "two-aux-first"}).Draw(t, "includeShape")
+		for name, body := range map[string]string{"aux1.mro": "filetype zzaux1;\n", "aux2.mro": "filetype zzaux2;\n", "wrap.mro": "@include \"defs.mro\"\n\nfiletype zzwrap;\n"} {
+			if err := os.WriteFile(filepath.Join(dir, name), []byte(body), 0o644); err != nil {
+				t.Fatalf("INFRA: %v", err)
+			}
+		}
+		var incs []string
+		switch incKind {
+		case "aux-first":
+			incs = []string{"aux1.mro", "defs.mro"}
+		case "aux-last":
+			incs = []string{"defs.mro", "aux1.mro"}
+		case "transitive":
+			incs = []string{"wrap.mro"}
+		case "aux-then-transitive":
+			incs = []string{"aux1.mro", "wrap.mro"}
+		default:
+			incs = []string{"aux2.mro", "aux1.mro", "defs.mro"}
+		}
+		callAt := strings.Index(src, "call TARGET")
+		if mc := strings.Index(src, "map call TARGET"); mc >= 0 {
+			callAt = mc
+		}
+		if callAt < 0 {
+			t.Fatalf("HARNESS: no call statement in produced text:\n%s", src)
+		}
+		var hb strings.Builder
+		for _, inc := range incs {
+			fmt.Fprintf(&hb, "@include %q\n", inc)
+		}
+		hb.WriteString("\n" + src[callAt:])
+		hand := hb.String()
+		_, _, astH, err := syntax.ParseSourceBytes([]byte(hand), filepath.Join(dir, "hand.mro"), mroPaths, false)
+		if err != nil {
+			t.Fatalf("HARNESS: hand-written call text does not compile: %v\n%s", err, hand)
+		}
+		inv3, err := core.InvocationDataFromSource([]byte(hand), mroPaths)
+		if err != nil {
+			fail(t, "C16", "call-text-not-readable-back", "InvocationDataFromSource failed on a call with includes %v: %v\ntext:\n%s", incs, err, hand)
+		}
+		if inv3.Call != "TARGET" || strings.Join(sortedCopy(inv3.SplitArgs), ",") != strings.Join(sortedCopy(splitArgs), ",") {
+			fail(t, "C16", "split-status-changed", "includes %v: call %q split args %v (want TARGET, %v)\ntext:\n%s", incs, inv3.Call, inv3.SplitArgs, splitArgs, hand)
+		}
+		for _, p := range ins {
+			got, perr := jsonx.Parse(inv3.Args[p.Name])
+			if perr != nil || !jsonx.Equal(want[p.Name], got, true) {
+				fail(t, "C16", "arg-value-changed", "includes %v: argument %s (%s): %s came back as %s\ntext:\n%s", incs, p.Name, p.T, jsonx.Marshal(want[p.Name]), inv3.Args[p.Name], hand)
+			}
+		}
+		src3, err := inv3.BuildCallSource(mroPaths)
+		if err != nil {
+			fail(t, "C16", "data-from-text-not-convertible-back", "call text with includes %v gave invocation data (include %q) that cannot be turned into call text again: %v\ntext:\n%s", incs, inv3.Include, err, hand)
+		}
+		_, _, ast3, err := syntax.ParseSourceBytes([]byte(src3), filepath.Join(dir, "call3.mro"), mroPaths, false)
+		if err != nil {
+			fail(t, "C16", "call-text-does-not-compile", "includes %v: the call produced from the read-back data (include %q) does not compile: %v\ntext:\n%s", incs, inv3.Include, err, src3)
+		}
+		if !astH.EquivalentCall(ast3) || !ast3.EquivalentCall(astH) {
+			fail(t, "C16", "round-trip-not-equivalent", "includes %v: text -> data -> text is not an equivalent call:\n%s\n---\n%s", incs, hand, src3)
+		}
+		classes = append(classes, "includes:"+incKind)
+		stats.Case("C16", rich, stats.Digest("rt", defs, src, incKind), classes, func() any {
+			return map[string]any{"kind": "roundtrip", "call_text": stats.Trunc(src, 900), "splitargs": splitArgs, "hand_written_includes": incs}
 		})
 	})
 }
